@@ -50,6 +50,8 @@ package cache
 //@   ensures !readOnly && result == nil ==> contains(t.writtenCaches, name) && heldW(t.writtenCaches[name].mu)
 //@   ensures forallv(k string, contains(t.writtenCaches, k) ==> t.writtenCaches[k] != nil && heldW(t.writtenCaches[k].mu))
 //@   ensures forallv(k string, old(contains(t.writtenCaches, k)) ==> contains(t.writtenCaches, k))
+//@   ensures readOnly ==> forallv(k string, contains(t.writtenCaches, k) == old(contains(t.writtenCaches, k)) && t.writtenCaches[k] == old(t.writtenCaches[k]))
+//@   ensures t.manager == old(t.manager) && t.writtenCaches == old(t.writtenCaches)
 
 // Interface method contract: the size of a cached item is computed without touching any
 // modelled state (assumed for every implementation).
